@@ -13,7 +13,7 @@ import json, os, random, shutil, subprocess
 import vlib
 
 
-def render(prog, rng):
+def render(prog, rng, parents=None):
     prog = prog or {}          # an empty program is serialised as [] by the model
     files = {}
     for path, f in prog.items():
@@ -26,7 +26,9 @@ def render(prog, rng):
                 lines = ["  %d: %s %s %s" % (x["id"], "required" if x["req"] else "optional", x["ty"], x["name"]) for x in fs]
             defs.append("%s %s {\n%s\n}\n" % (kind, st, "\n".join(lines)))
         for s, ms in (f["services"] or {}).items():
-            defs.append("service %s {\n%s\n}\n" % (s, "\n".join("  void %s()" % m for m in ms)))
+            par = (parents or {}).get(s)
+            ext = " extends %s" % par if par and par in (f["services"] or {}) else ""      # MCBreak's ParentOf, while the parent is in the file
+            defs.append("service %s%s {\n%s\n}\n" % (s, ext, "\n".join("  void %s()" % m for m in ms)))
         # every file has the same two aliases (MCBreak's field types TI and TL): a field that moves onto or off an alias
         # changes its type name, whatever the alias stands for
         defs += ["typedef i32 TI\n", "typedef list<i32> TL\n"]
@@ -56,17 +58,17 @@ def write_tree(repo, files):
 
 
 def observe(ctx, tb, case, i, rng):
-    row = {"op": "c20", "id": case.get("id", "b%d" % i), "old": case["old"], "new": case["new"], "setup": "", "crashed": False,
+    row = {"op": "c20", "id": case.get("id", "b%d" % i), "old": case["old"], "new": case["new"], "parents": case.get("parents") or {}, "setup": "", "crashed": False,
            "base": {p: os.path.basename(p) for p in list(case["old"]) + list(case["new"])},
            "lines": [], "nlines": 0, "jlines": [], "code": 0, "jcode": 0, "repeats": []}
     repo = os.path.join(ctx.dir("repos"), "r%d" % i)
     try:
         os.makedirs(repo)
         git(repo, "init", "-q")
-        write_tree(repo, render(case["old"], rng))
+        write_tree(repo, render(case["old"], rng, case.get("parents")))
         git(repo, "add", "-A")
         git(repo, "commit", "-q", "-m", "old")
-        write_tree(repo, render(case["new"], rng))
+        write_tree(repo, render(case["new"], rng, case.get("parents")))
         open(os.path.join(repo, "README"), "w").write("y")   # the commit is never empty
         git(repo, "add", "-A")
         git(repo, "commit", "-q", "-m", "new")
@@ -137,7 +139,7 @@ def run(ctx):
         if not cases:
             raise vlib.Inconclusive("MCBreak printed no cases")
         base = cases[0]["old"]
-        cases.append({"old": base, "new": base, "id": "identical"})
+        cases.append({"old": base, "new": base, "id": "identical", "parents": cases[0].get("parents")})
     import concurrent.futures
     with concurrent.futures.ThreadPoolExecutor(max_workers=12) as ex:
         rows = list(ex.map(lambda ic: observe(ctx, tb, ic[1], ic[0], random.Random(ctx.seed * 1000 + ic[0])), enumerate(cases)))
@@ -147,7 +149,7 @@ def run(ctx):
         row = dict(row)
         row["_class"] = "deleted-service-base-name" if why == ["KNOWN-CLASS-deleted-service-base-name"] else "other"
         vlib.report_failure(ctx, row, {"failed": why, "id": row.get("id"), "lines": row["lines"], "stderr": row.get("stderr", "")},
-                            case={"old": row["old"], "new": row["new"]})
+                            case={"old": row["old"], "new": row["new"], "parents": row["parents"]})
     ctx.cov["distinct_nontrivial"] = vlib.distinct_count(rows, lambda r: r["new"])
     ctx.cov["runs_with_diagnostics"] = sum(1 for r in rows if r["lines"])
     ctx.cov["runs_silent"] = sum(1 for r in rows if not r["lines"])
